@@ -342,8 +342,9 @@ func e2(engine string) {
 	}
 	for _, ec := range []epc{{"", false}, {"/base", false}, {"/base", true}, {"", true}} {
 		be := stack.NewBackend("A", "openai-compatible", true)
-		be.ModelsBody = func() []byte { return stack.ModelsFor("openai-compatible", "m1") }
+		be.ModelsBody = func() []byte { return stack.ModelsFor("openai-compatible", "m1", "m2", "m3") }
 		be.SetPlan(func(q *stack.Request) stack.Behaviour { return stack.OK(`{"ok":true}`) })
+		seq := 0
 		o, err := stack.Boot(stack.Opts{Engine: engine, Balancer: "priority", ModelDiscovery: true,
 			Endpoints: []stack.EP{{B: be, Priority: 100, BasePath: ec.base, PreservePath: ec.preserve}}})
 		if err != nil {
@@ -352,6 +353,14 @@ func e2(engine string) {
 		}
 		one := func(label, method, prefix, rest, query string, body []byte, chunked bool, ctype string) {
 			be.Reset()
+			// requests that name a model name a different one each time (m1, m2, m3 in turn): what olla derives from one
+			// request's body (it announces the model upstream as X-Model) must not turn up in the next request
+			seq++
+			wantModel := ""
+			if mi := bytes.Index(body, []byte(`"model":"m1"`)); mi >= 0 {
+				wantModel = fmt.Sprintf("m%d", seq%3+1)
+				body = append(append(append([]byte{}, body[:mi]...), []byte(`"model":"`+wantModel+`"`)...), body[mi+len(`"model":"m1"`):]...)
+			}
 			target := prefix + rest
 			if query != "" {
 				target += "?" + query
@@ -387,6 +396,10 @@ func e2(engine string) {
 			}
 			if q.Query() != query {
 				res.Violate("query-altered", w, cell+fmt.Sprintf("\nbackend query %q want %q", q.Query(), query), rp)
+			}
+			if gm := q.Header("X-Model"); gm != "" && !strings.EqualFold(strings.TrimSpace(gm), wantModel) {
+				res.Violate("header-of-an-earlier-request-forwarded", map[string]any{"part": "E2", "header": "X-Model"},
+					cell+fmt.Sprintf("\nthe backend was told X-Model: %q; this request names model %q (empty: none) and sent no such header", gm, wantModel), rp)
 			}
 			if !bytes.Equal(q.Body, body) {
 				res.Violate("body-altered", map[string]any{"part": "E2", "chunked": chunked}, cell+fmt.Sprintf("\nclient sent %d bytes sha %s, backend got %d bytes sha %s", len(body), sha(body), len(q.Body), sha(q.Body)), rp)
